@@ -15,6 +15,8 @@ mod models_full;
 #[cfg(feature = "full")]
 mod proofrun;
 #[cfg(feature = "full")]
+mod scen_c01;
+#[cfg(feature = "full")]
 mod scen_c19;
 #[cfg(feature = "full")]
 mod scen_full;
@@ -192,6 +194,8 @@ fn dispatch(ctx: &mut Ctx) {
         "C09" => scen_full2::c09(ctx),
         #[cfg(feature = "full")]
         "C19" => scen_c19::c19(ctx),
+        #[cfg(feature = "full")]
+        "C01" => scen_c01::c01(ctx),
         #[cfg(feature = "full")]
         "C10" => scen_full2::c10(ctx),
         #[cfg(feature = "full")]
